@@ -104,6 +104,7 @@ ENABLED_ENTRIES = [
     "sim/ntfnsim/ENTRY.py",
     "sim/invsim/ENTRY.py",
     "sim/gossipsim/ENTRY.py",
+    "inpkg/htlcswitch/ENTRY.py",
 ]
 
 
